@@ -186,6 +186,51 @@ INFO4 = {
  "C20-8": ("RouterAddressCount() / PeerSize() index i.Bytes()[0] behind the nil guard; NewInteger returns a non-nil empty Integer at end of input", "RouterInfo cut right after the published date or right after the last address"),
 }
 MISSED_FIRST_4 = ["C04-7", "C05-7", "C05-8", "C07-8", "C08-7", "C10-7", "C15-7", "C18-7", "C18-8"]
+
+# round 5 (change 1: write side / shared data; change 2: interaction of two packages or two features); patch k kept as <ID>-<k+8>
+INFO5 = {
+ "C01-9": ("MetaLeaseSet.Bytes() writes flags & a 'defined flags' mask", "accepted MetaLeaseSet with any flag bit above bit 1"),
+ "C01-10": ("serializeLeaseSet2Content validates each key with validateEncryptionKeyConsistency (nominal size of known types) before writing it; the parser only warns", "LeaseSet2 key of a known type 0..7 with a length other than the nominal one"),
+ "C02-9": ("mappingOrder compares lower-cased keys first", "constructor-built options with keys whose order depends on letter case (netId vs netdb..., MTU vs host)"),
+ "C02-10": ("LeaseSet2 parseOfflineSignature takes the destination signing type from a helper that fails for non-KEY certificates", "LeaseSet2 with a NULL-certificate destination and the offline-keys flag"),
+ "C03-9": ("ReadMetaLeaseSet never assigns its named result remainder (always nil)", "any accepted MetaLeaseSet followed by at least one byte"),
+ "C03-10": ("RouterInfo signature of a NULL-certificate identity built with the exact-length NewSignatureFromBytes over the rest of the buffer", "RouterInfo with a NULL-certificate identity followed by at least one byte"),
+ "C04-9": ("offline_signature size tables as 12-entry arrays with a bounds guard > len instead of >=", "type code 12 reaching SigningPublicKeySize / SignatureSize (readers, constructors, containers with offline keys)"),
+ "C04-10": ("RouterAddress.String() counts introducers until the first missing hash; IntroducerHashString clamps out-of-range n to 0: endless loop", "SSU address with ih0, ih1 and ih2 all present, then String() (or RouterInfo.String())"),
+ "C05-9": ("Certificate.Bytes() writes NULL / HIDDEN certificates as the bare header, dropping a declared payload the parser accepted", "genuinely DSA-signed structure whose NULL certificate is given a payload after signing"),
+ "C05-10": ("ReadLeaseSet2 skips encryption keys of experimental types; Verify re-serialises with the shorter list", "experimental-type key inserted into a signed LeaseSet2, count byte bumped"),
+ "C06-9": ("NewLeaseSet2 treats published == 0 as 'now' after the bytes to sign were built", "published = 0 with a real signing key"),
+ "C06-10": ("parseEncryptionKeys keeps only keys whose type is in CryptoPublicKeySizes", "signed LeaseSet2 with a key type outside 0..7"),
+ "C07-9": ("Base32Address() returns the b33 address for RedDSA destinations", "any Destination with signing type 11"),
+ "C07-10": ("CreateBlindedDestination copies the key certificate shallowly and writes the signing type through the shared backing array", "an Ed25519 destination handed to CreateBlindedDestination: the original becomes type 11"),
+ "C08-9": ("offline_signature cutField: named results, copy made but never assigned", "any offline signature (standalone or in a container), key / signature bytes overwritten"),
+ "C08-10": ("Ed25519 key constructors no longer clone; the clone moved into keys_and_cert only, the legacy LeaseSet caller still passes a view", "legacy LeaseSet whose destination has signing type 7 or 11: revocation key follows input offsets 647..678"),
+ "C09-9": ("restricted signing types moved into a shared map; the Destination check aliases it and deletes RedDSA from it", "any Destination checked first, then RouterIdentity paths accept RedDSA (order dependent)"),
+ "C09-10": ("LeaseSet2 parser applies the Destination signing-type policy to the effective (transient) signing type", "permitted destination with offline keys whose transient key is Ed25519ph or RSA"),
+ "C10-9": ("buildKeyCertificatePayload writes {0, byte(sig), 0, byte(enc)}: high bytes lost", "NewKeyCertificateWithTypes with a code >= 256 (experimental range)"),
+ "C10-10": ("GetKeySizes errors when signing + crypto key sizes exceed 384", "pairs with P521 / RSA signing keys"),
+ "C11-9": ("mappingOrder compares key + '=' + value", "one key a proper prefix of another whose next byte is <= '='"),
+ "C11-10": ("parseKeyValuePairs bounds its loop by ceil(len/6)", "more than ceil(payload/6) pairs: six 5-byte pairs"),
+ "C12-9": ("NewI2PString replaces invalid UTF-8 by U+FFFD", "content that is not well-formed UTF-8 through NewI2PString / MappingValues.Add"),
+ "C12-10": ("DateFromTime adds the zone offset of the time.Time", "a time expressed in a location other than UTC"),
+ "C13-9": ("base32 MAX_DECODE_SIZE re-derived with the ratio inverted (6,553,600)", "size-guarded round trip above 4,096,000 bytes"),
+ "C13-10": ("size guards compare the length without CR / LF", "input longer than the limit that contains line breaks"),
+ "C14-9": ("NewKeysAndCert loses the signing-key size comparison in a helper refactor", "tuple whose only defect is the signing key length"),
+ "C14-10": ("NewLeaseSet takes the expected encryption-key size from the destination's certificate", "legacy LeaseSet for an X25519-certificate destination: valid 256-byte key refused, 32-byte key accepted"),
+ "C15-9": ("OldestExpiration skips leases whose end date is 0", ">= 2 leases, one with end date 0"),
+ "C15-10": ("LeaseSet2.ExpirationTime returns min(published + expires, offline expiry)", "offline block whose transient key expires before the lease set does"),
+ "C16-9": ("blinding goes through uint32(date.Unix())", "instants before 1970 or after 2106-02-07"),
+ "C16-10": ("DecryptInnerData wipes the private key it was given (slice-typed forms alias the caller's key)", "the same key value used for a second decrypt"),
+ "C17-9": ("NewRouterAddress canonicalises an IP-literal host (drops the zone, rewrites the spelling)", "host fe80::1%eth0 or 2001:DB8::1 through the constructor"),
+ "C17-10": ("I2PString.Data() fails for content that is not valid UTF-8", "raw 32- / 16-byte s and i values"),
+ "C18-9": ("serializeWithoutSignature swaps an empty signature into the receiver for the duration of the call", ">= 2 goroutines, one in VerifySignature()"),
+ "C18-10": ("introducer option keys built in a package-level scratch array", "SSU address, Introducer* accessors or String() called concurrently"),
+ "C19-9": ("NewKeyCertificateWithTypes appends a zero-filled excess-key-data placeholder", "signing types 3..6 through the direct constructor versus the builder"),
+ "C19-10": ("NULL-certificate branch of ReadKeysAndCert uses a constant certificate and data[387:]", "NULL certificate with a non-zero length field: ReadDestination versus ReadDestinationFromLeaseSet"),
+ "C20-9": ("MetaLeaseSet.Bytes() pre-sizes its buffer with offlineSignature.Len() (nil after a failed parse)", "MetaLeaseSet with the offline flag cut inside the offline block (>= 478 bytes)"),
+ "C20-10": ("ReadRouterInfo calls Validate() after parsing and returns the populated value with the error", "correctly signed RouterInfo with zero addresses or published = 0: VerifySignature() true on the value returned with an error"),
+}
+MISSED_FIRST_5 = ["C05-9", "C05-10", "C10-9", "C13-10", "C11-10", "C15-10", "C07-10", "C12-10", "C16-10", "C09-10", "C04-10", "C06-10", "C14-10"]
 MISSED_FIRST_2 = ["C05-4", "C06-3", "C07-4", "C09-3", "C10-4", "C15-3", "C17-3", "C18-4", "C19-3", "C19-4"]
 
 
@@ -206,18 +251,22 @@ def main():
     allinfo.update(INFO2)
     allinfo.update(INFO3)
     allinfo.update(INFO4)
+    allinfo.update(INFO5)
     for key in sorted(allinfo):
         pid, k = key.split("-")
         round2 = key in INFO2
         round3 = key in INFO3
         round4 = key in INFO4
+        round5 = key in INFO5
         if round2:
             k = str(int(k) - 2)
         if round3:
             k = str(int(k) - 4)
         if round4:
             k = str(int(k) - 6)
-        src = os.path.join(SRC, ("R4" if round4 else "R3" if round3 else "R2" if round2 else "") + pid + "-out")
+        if round5:
+            k = str(int(k) - 8)
+        src = os.path.join(SRC, ("R5" if round5 else "R4" if round4 else "R3" if round3 else "R2" if round2 else "") + pid + "-out")
         conf = os.path.join(src, "confirm%s.json" % k)
         if not os.path.exists(conf):
             continue
@@ -234,7 +283,7 @@ def main():
         if os.path.exists(os.path.join(src, "notes.md")):
             shutil.copy(os.path.join(src, "notes.md"), os.path.join(dst, "notes.md"))
         caught, missed, detail = [], [], {}
-        rp = os.path.join(SRC, "results4" if round4 else "results3" if round3 else "results2" if round2 else "results", "%s-%s.json" % (pid, k))
+        rp = os.path.join(SRC, "results5" if round5 else "results4" if round4 else "results3" if round3 else "results2" if round2 else "results", "%s-%s.json" % (pid, k))
         if os.path.exists(rp):
             try:
                 r = json.load(open(rp))
@@ -261,9 +310,9 @@ def main():
                 how="seedtool.py confirm: patch applied in a scratch worktree of /repo, `go build ./...`, full existing suite (`go test -vet=off -count=1 ./...`), demo with the patch, patch reverted, demo again" + (" (demo under -race)" if pid == "C18" else ""),
                 suite_passes_with_patch=c.get("suite_rc") == 0, demo_fails_with_patch=c.get("demo_rc_with") != 0, demo_passes_without_patch=c.get("demo_rc_without") == 0,
                 demo_dir=c.get("demo_dir")),
-            checks_run=("quick tier of the target check (and of the neighbouring checks listed) against a scratch worktree with the patch applied (seedtool.py run, VERIF_REPO)" if (round2 or round3 or round4) else "quick tier of every check against a scratch worktree with the patch applied (seedtool.py run, VERIF_REPO)"),
-            missed_at_first=(key in MISSED_FIRST_2) if round2 else (key in missed3) if round3 else (key in MISSED_FIRST_4) if round4 else None,
-            round=4 if round4 else 3 if round3 else 2 if round2 else 1,
+            checks_run=("quick tier of the target check (and of the neighbouring checks listed) against a scratch worktree with the patch applied (seedtool.py run, VERIF_REPO)" if (round2 or round3 or round4 or round5) else "quick tier of every check against a scratch worktree with the patch applied (seedtool.py run, VERIF_REPO)"),
+            missed_at_first=(key in MISSED_FIRST_2) if round2 else (key in missed3) if round3 else (key in MISSED_FIRST_4) if round4 else (key in MISSED_FIRST_5) if round5 else None,
+            round=5 if round5 else 4 if round4 else 3 if round3 else 2 if round2 else 1,
             caught_by=sorted(caught), first_report=detail.get(pid) or (detail[sorted(detail)[0]] if detail else ""),
             not_reporting=sorted(missed))
         json.dump(meta, open(os.path.join(dst, "meta.json"), "w"), indent=1)
